@@ -38,9 +38,9 @@ func (r *Run) timingLedger(evs []verif.Event) (checked int) {
 	sent := map[int64][]reqCmd{}
 	clamp := map[string]int64{} // "k|id" -> clamped delay of the REQ being executed
 	var waits []pend
-	idOfKey := map[string]string{}
-	whereOf := map[string]string{}
-	topicInst := map[string]string{}
+	idOfKey := map[string]string{}    // key -> id
+	topicOfKey := map[string]string{} // key -> topic instance (ids are unique per topic only)
+	whereOf := map[string]string{}    // topic instance + id -> mem | disk
 	chansOfTopic := map[string][]string{}
 	deferOfKey := map[string][2]int64{} // key -> (ts, defer ms)
 	for _, e := range evs {
@@ -79,9 +79,9 @@ func (r *Run) timingLedger(evs []verif.Event) (checked int) {
 		case "TPutBegin":
 			dg, _ := hlib.KVGet(e, "body").(verif.BodyDigest)
 			idOfKey[keyOf([]byte(dg.Pre))] = hlib.KVStr(e, "id")
-			topicInst[hlib.KVStr(e, "id")] = hlib.KVStr(e, "t")
+			topicOfKey[keyOf([]byte(dg.Pre))] = hlib.KVStr(e, "t")
 		case "TPutEnd":
-			whereOf[hlib.KVStr(e, "id")] = hlib.KVStr(e, "where")
+			whereOf[hlib.KVStr(e, "t")+"|"+hlib.KVStr(e, "id")] = hlib.KVStr(e, "where")
 		case "CMapAdd":
 			chansOfTopic[hlib.KVStr(e, "t")] = append(chansOfTopic[hlib.KVStr(e, "t")], hlib.KVStr(e, "c"))
 		}
@@ -118,10 +118,10 @@ func (r *Run) timingLedger(evs []verif.Event) (checked int) {
 	}
 	for key, td := range deferOfKey {
 		id := idOfKey[key]
-		if id == "" || whereOf[id] != "mem" {
+		if id == "" || whereOf[topicOfKey[key]+"|"+id] != "mem" {
 			continue // rejected, or spilled to the topic's disk queue (where the deferral is documented to be lost)
 		}
-		for _, ch := range chansOfTopic[topicInst[id]] {
+		for _, ch := range chansOfTopic[topicOfKey[key]] {
 			rs := recv[rk{ch, id}]
 			if len(rs) == 0 {
 				continue
